@@ -171,7 +171,9 @@ def CNN.kernelTarget (p : Policy) (c : CNN) (a : Args) : Nat × Nat :=
     (i, max 1 (min a.k (c.maxKernels.getD i 1)))
   else (a.klayer, a.k)
 
-def CNN.step (p : Policy) (c : CNN) : CnnMethod → Args → CNN × Applied
+/-- `layerOK` = the layer mutations of this block are enabled (they are disabled for the encoder of
+    a network; `change_kernel` on a single-layer CNN then falls back on `add_channel`) -/
+def CNN.step (p : Policy) (layerOK : Bool) (c : CNN) : CnnMethod → Args → CNN × Applied
   | .addLayer, a => c.addLayer a
   | .removeLayer, a =>
     if c.channels.length > c.minLayers then
@@ -182,7 +184,8 @@ def CNN.step (p : Policy) (c : CNN) : CnnMethod → Args → CNN × Applied
     if c.channels.length > 1 then
       let t := c.kernelTarget p a
       ({ c with kernels := c.kernels.set t.1 t.2 }, .changeKernel)
-    else c.addLayer a
+    else if layerOK then c.addLayer a
+    else (c.addChannel a, .addChannel)
   | .addChannel, a => (c.addChannel a, .addChannel)
   | .removeChannel, a => (c.removeChannel a, .removeChannel)
 
@@ -643,10 +646,10 @@ def resnetMethod? : String → Option BlockMethod
   | "add_channel" => some .addNode | "remove_channel" => some .removeNode | _ => none
 
 /-- `none` = no such method on this block -/
-def Basic.step (p : Policy) (b : Basic) (meth : String) (a : Args) : Option (Basic × Applied) :=
+def Basic.step (p : Policy) (layerOK : Bool) (b : Basic) (meth : String) (a : Args) : Option (Basic × Applied) :=
   match b with
   | .mlp m => (mlpMethod? meth).map (fun me => let r := m.step me a; (.mlp r.1, r.2))
-  | .cnn c => (cnnMethod? meth).map (fun me => let r := c.step p me a; (.cnn r.1, r.2))
+  | .cnn c => (cnnMethod? meth).map (fun me => let r := c.step p layerOK me a; (.cnn r.1, r.2))
   | .lstm l => (mlpMethod? meth).map (fun me => let r := l.step me a; (.lstm r.1, r.2))
   | .simba s => (simbaMethod? meth).map (fun me => let r := s.step me a; (.simba r.1, r.2))
   | .resnet r => (resnetMethod? meth).map (fun me => let q := r.step me a; (.resnet q.1, q.2))
@@ -662,22 +665,22 @@ deriving DecidableEq, Repr
 def latentMethod? : String → Option LatentMethod
   | "add_latent_node" => some .add | "remove_latent_node" => some .remove | _ => none
 
-def stepSub (p : Policy) (key meth : String) (a : Args) :
+def stepSub (p : Policy) (layerOK : Bool) (key meth : String) (a : Args) :
     List (String × Basic) → Option (List (String × Basic) × Applied)
   | [] => none
   | (k, b) :: rest =>
-    if k = key then (b.step p meth a).map (fun r => ((k, r.1) :: rest, r.2))
-    else (stepSub p key meth a rest).map (fun r => ((k, b) :: r.1, r.2))
+    if k = key then (b.step p layerOK meth a).map (fun r => ((k, r.1) :: rest, r.2))
+    else (stepSub p layerOK key meth a rest).map (fun r => ((k, b) :: r.1, r.2))
 
 /-- returns the new encoder and the dotted name of the applied method -/
-def Multi.step (p : Policy) (m : Multi) (path : List String) (a : Args) : Option (Multi × String) :=
+def Multi.step (p : Policy) (layerOK : Bool) (m : Multi) (path : List String) (a : Args) : Option (Multi × String) :=
   match path with
   | [meth] =>
     (latentMethod? meth).map (fun me =>
       let r := m.lat.step me a
       ({ m with lat := r.1, subs := m.subs.map (fun e => (e.1, e.2.setNumOutputs r.1.dim)) }, r.2.name))
   | ["feature_net", key, meth] =>
-    (stepSub p key meth a m.subs).map (fun r =>
+    (stepSub p layerOK key meth a m.subs).map (fun r =>
       ({ m with subs := r.1 }, "feature_net." ++ key ++ "." ++ r.2.name))
   | _ => none
 
@@ -698,13 +701,13 @@ def Enc.setNumOutputs (n : Nat) : Enc → Enc
 def Enc.paramShapes : Enc → Params
   | .basic b => b.paramShapes | .multi m => m.paramShapes
 
-def Enc.step (p : Policy) (e : Enc) (path : List String) (a : Args) : Option (Enc × String) :=
+def Enc.step (p : Policy) (layerOK : Bool) (e : Enc) (path : List String) (a : Args) : Option (Enc × String) :=
   match e with
   | .basic b =>
     match path with
-    | [meth] => (b.step p meth a).map (fun r => (.basic r.1, r.2.name))
+    | [meth] => (b.step p layerOK meth a).map (fun r => (.basic r.1, r.2.name))
     | _ => none
-  | .multi m => (m.step p path a).map (fun r => (.multi r.1, r.2))
+  | .multi m => (m.step p layerOK path a).map (fun r => (.multi r.1, r.2))
 
 structure Net where
   lat : Latent
@@ -729,7 +732,7 @@ def Net.step (p : Policy) (n : Net) (path : List String) (a : Args) : Option (Ne
       let r := n.lat.step me a
       ({ n with lat := r.1, enc := n.enc.setNumOutputs r.1.dim,
                 head := { n.head with numInputs := r.1.dim + n.headExtra } }, r.2.name))
-  | "encoder" :: rest => (n.enc.step p rest a).map (fun r => ({ n with enc := r.1 }, "encoder." ++ r.2))
+  | "encoder" :: rest => (n.enc.step p n.encLayer rest a).map (fun r => ({ n with enc := r.1 }, "encoder." ++ r.2))
   | ["head_net", meth] =>
     (mlpMethod? meth).map (fun me =>
       if p.forwardHead then
@@ -776,7 +779,7 @@ def nodeDrawOK (choices : List Nat) (len : Nat) (hasLayer : Bool) (a : Args) (x 
 
 /-- are the recorded numpy draws inside the ranges the code draws from?  (explicit arguments are
     unconstrained, except where the code raises) -/
-def Basic.drawsOK (p : Policy) (b : Basic) (meth : String) (a : Args) (x : Flags) : Bool :=
+def Basic.drawsOK (p : Policy) (layerOK : Bool) (b : Basic) (meth : String) (a : Args) (x : Flags) : Bool :=
   match b with
   | .mlp m =>
     let node := nodeDrawOK [16, 32, 64] m.hidden.length true a x
@@ -796,7 +799,7 @@ def Basic.drawsOK (p : Policy) (b : Basic) (meth : String) (a : Args) (x : Flags
         (if x.xkl then (p.clampKernel || decide (a.klayer < c.kernels.length))
          else decide (1 ≤ a.klayer) && decide (a.klayer < min 4 c.channels.length)) &&
         (x.xk || (decide (1 ≤ a.k) && decide (a.k ≤ c.maxKernels.getD t 1)))
-      else addL
+      else if layerOK then addL else chan
     | _ => chan
   | .lstm l =>
     let node := nodeDrawOK [16, 32, 64] 0 false a x
@@ -819,21 +822,21 @@ def Basic.drawsOK (p : Policy) (b : Basic) (meth : String) (a : Args) (x : Flags
 
 def latentDrawOK (a : Args) (x : Flags) : Bool := nodeDrawOK [8, 16, 32] 0 false a x
 
-def Enc.drawsOK (p : Policy) (e : Enc) (path : List String) (a : Args) (x : Flags) : Bool :=
+def Enc.drawsOK (p : Policy) (layerOK : Bool) (e : Enc) (path : List String) (a : Args) (x : Flags) : Bool :=
   match e, path with
-  | .basic b, [meth] => b.drawsOK p meth a x
+  | .basic b, [meth] => b.drawsOK p layerOK meth a x
   | .multi _, [_] => latentDrawOK a x
   | .multi m, ["feature_net", key, meth] =>
     match m.subs.find? (fun e => e.1 == key) with
-    | some e => e.2.drawsOK p meth a x
+    | some e => e.2.drawsOK p layerOK meth a x
     | none => true
   | _, _ => true
 
 def Net.drawsOK (p : Policy) (n : Net) (path : List String) (a : Args) (x : Flags) : Bool :=
   match path with
   | [_] => latentDrawOK a x
-  | "encoder" :: rest => n.enc.drawsOK p rest a x
-  | ["head_net", meth] => if p.forwardHead then (Basic.mlp n.head).drawsOK p meth a x else true
+  | "encoder" :: rest => n.enc.drawsOK p n.encLayer rest a x
+  | ["head_net", meth] => if p.forwardHead then (Basic.mlp n.head).drawsOK p true meth a x else true
   | _ => true
 
 inductive Top where
@@ -904,11 +907,11 @@ def Top.methods : Top → List String
 
 def Top.step (p : Policy) (t : Top) (path : List String) (a : Args) : Option (Top × String) :=
   match t with
-  | .enc e => (e.step p path a).map (fun r => (.enc r.1, r.2))
+  | .enc e => (e.step p true path a).map (fun r => (.enc r.1, r.2))
   | .net n => (n.step p path a).map (fun r => (.net r.1, r.2))
 def Top.drawsOK (p : Policy) (t : Top) (path : List String) (a : Args) (x : Flags) : Bool :=
   match t with
-  | .enc e => e.drawsOK p path a x
+  | .enc e => e.drawsOK p true path a x
   | .net n => n.drawsOK p path a x
 
 def parseBool? : String → Option Bool
